@@ -57,5 +57,5 @@ CONF = dict(
     timeout_quick=900, timeout_thorough=3000,
     extra_thorough=[dict(cmd='c06race', race=True)],
     no_floor=['lsn.slowlink', 'lsn.fallback'],
-    min_cases={'lsn.hist': 48, 'tss.flood': 1, 'tss.full': 1, 'tss.hist': 210, 'tss.lockdiscipline': 1},
+    min_cases={'lsn.hist': 48, 'tss.conc': 1, 'tss.era': 30, 'tss.flood': 1, 'tss.full': 1, 'tss.hist': 210, 'tss.lockdiscipline': 1},
 )
